@@ -49,7 +49,17 @@ def _regen_gendigest(ctx):
     return os.path.exists(os.path.join(_gen(ctx), 'GenDigest.lean'))
 
 
-REGEN = {'registry': _regen_registry, 'xlsx': _regen_xlsx, 'profiletables': _regen_profiletables, 'gendigest': _regen_gendigest}
+def _regen_untyped(ctx):
+    import framework as F
+    rc, o = F.sh([sys.executable, os.path.join(F.ROOT, 'translators', 'untyped.py'), F.REPO, os.path.join(_gen(ctx), 'Untyped.lean')])
+    if rc != 0:
+        ctx.fail('tool', 'translator untyped failed (shape of profile/untyped/*_gen.go changed): ' + o.strip()[-300:], detail=o[-2000:])
+        return False
+    ctx.cov.setdefault('extra', {})['untyped'] = o.strip()
+    return True
+
+
+REGEN = {'untyped': _regen_untyped, 'registry': _regen_registry, 'xlsx': _regen_xlsx, 'profiletables': _regen_profiletables, 'gendigest': _regen_gendigest}
 
 
 def _extra(ctx, spec):
@@ -81,11 +91,12 @@ def _extra(ctx, spec):
 
 PROP = dict(
     level='proof',
-    regen=['xlsx', 'profiletables', 'gendigest'],
+    regen=['xlsx', 'profiletables', 'untyped', 'gendigest'],
     theorems=['Fit.C17.C17_bytes', 'Fit.C17.C17_factory_eq_xlsx_partial', 'Fit.C17.C17_factory_eq_xlsx_outside_class',
               'Fit.C17.C17_KF1_witness', 'Fit.C17.C17_types_eq_xlsx_partial', 'Fit.C17.C17_KF1_witness_types',
               'Fit.C17.C17_refs_resolve', 'Fit.C17.C17_bitwidth_fit', 'Fit.C17.C17_string_roundtrip',
-              'Fit.C17.C17_string_tables_cover', 'Fit.C17.C17_invalid_is_base_invalid'],
+              'Fit.C17.C17_string_tables_cover', 'Fit.C17.C17_invalid_is_base_invalid', 'Fit.C17.C17_mesgnum_fieldnum_partial',
+              'Fit.C17.C17_profile_types', 'Fit.C17.C17_version'],
     families=[dict(name='profilerows', spec=True, shrink=False)],
     extra=_extra,
     trusted_base=STD_TRUST + [
